@@ -268,6 +268,7 @@ func runC13(r *mc.Report, e *Env) {
 	// pass 0: genuine cases and single operators; pass 1: pairs of structural operators;
 	// pass 2 (thorough, small tries): a node / code bit flip followed by a structural
 	// operator. Singles come first so that the case kept for a fingerprint is short.
+	c13Sequences(r, e)
 	for pass := 0; pass < 3; pass++ {
 		for i, b := range bases {
 			if !e.Mine(i) || (pass == 2 && !(full && b.small)) {
@@ -307,6 +308,17 @@ func runC13(r *mc.Report, e *Env) {
 }
 
 func replayC13(r *mc.Report, e *Env, rawCase json.RawMessage) {
+	var sq c13SeqCase
+	if json.Unmarshal(rawCase, &sq) == nil && sq.Part == "carried-validator" {
+		or := &c13MutOracle{}
+		v := state.NewStateValidator(or)
+		for i, c := range []*c13Case{&sq.First, &sq.Second} {
+			or.c13Oracle = c13Oracle(c.Roots)
+			key, content := c.wire()
+			fmt.Printf("item %d (%s): %v\n", i+1, c.Op, v.ValidateContent(key, content))
+		}
+		return
+	}
 	var c c13Case
 	if err := json.Unmarshal(rawCase, &c); err != nil {
 		panic(err)
